@@ -70,6 +70,7 @@ class WbMemHarness(Harness):
         self.sels = list(sels) if sels is not None else list(range(1 << self.nl))
         self.depth = depth
         self.marks = marks
+        self.sweep = [("r", a, (1 << self.nl) - 1, 0) for a in list(adrs) + [list(adrs)[0]]] if (depth is not None and p.pop("sweep", True)) else None
         self.nbytes = p.get("nbytes", 16)
         if cap:
             self.cap = cap
@@ -123,6 +124,11 @@ class WbMemHarness(Harness):
             mch = [("idle",)]
             if self.depth is None or nops < self.depth:
                 mch += self.ops
+            elif self.sweep and nops < self.depth + len(self.sweep):
+                # read-back epilogue of a depth-bounded history: every address of the menu once more (the menu collides in one
+                # cache set, so each read evicts its predecessor) and the first one again - corruption left behind in a line
+                # or in the backing store by the history is read back although the history itself has used up its depth
+                mch = [self.sweep[nops - self.depth]]
         sch = ["a"]
         if self.Si is not None:
             sch = (["a"] if True else []) + (["w"] if lat < self.maxlat else [])
@@ -338,16 +344,22 @@ reg("SRAM(16bit,bursting)", "quick", kind="sram", mw=16, adrs=(0, 1), sels=(0b01
     bursts=tuple((we, a, kind, n) for we in (0, 1) for (a, kind, n) in ((0, "lin", 3), (5, "wrap4", 4), (6, "wrap8", 3), (2, "const", 2))))
 reg("SRAM(8bit,bursting)+burst_wait_states", "quick", kind="sram", mw=8, adrs=(0,), nbytes=8, bursting=True, burst_wait_states=True, marks=(1,),
     bursts=tuple((we, a, kind, n) for we in (0, 1) for (a, kind, n) in ((0, "lin", 3), (1, "wrap4", 4), (2, "const", 2))))
-# cache: addresses 0, 2, 4 collide in a 2-line cache (16/16: line = 1 word), 1 is the other line
-reg("Cache(size=2,16/16)+SRAM", "quick", kind="cache", mw=16, sw=16, adrs=(0, 2, 4), sels=(0b01, 0b11), cachesize=2, backing="sram", nbytes=16, depth=4, marks=(1,))
-reg("Cache(size=2,16/16)+SRAM,depth5", "thorough", kind="cache", mw=16, sw=16, adrs=(0, 2, 4, 1), sels=(0b01, 0b11, 0b10), cachesize=2, backing="sram", nbytes=16, depth=5, cap=3_000_000)
-reg("Cache(size=2,16/16,reverse=False)+SRAM", "thorough", kind="cache", mw=16, sw=16, adrs=(0, 2, 4), sels=(0b01, 0b11), cachesize=2, backing="sram", nbytes=16, depth=4, reverse=False)
-reg("Cache(size=4,16/32)+SRAM", "quick", kind="cache", mw=16, sw=32, adrs=(0, 1, 8), sels=(0b01, 0b11), cachesize=4, backing="sram", nbytes=32, depth=3, marks=(1,))
-reg("Cache(size=4,16/32)+SRAM,depth4", "thorough", kind="cache", mw=16, sw=32, adrs=(0, 1, 8, 9), sels=(0b01, 0b11, 0b10), cachesize=4, backing="sram", nbytes=32, depth=4)
-reg("Cache(size=2,32/16)+SRAM", "quick", kind="cache", mw=32, sw=16, adrs=(0, 2), sels=(0b0001, 0b1111, 0b0110), cachesize=2, backing="sram", nbytes=32, depth=3, marks=(1,))
-reg("Cache(size=2,32/16)+SRAM,depth4", "thorough", kind="cache", mw=32, sw=16, adrs=(0, 2, 4), sels=(0b0001, 0b1111, 0b0110), cachesize=2, backing="sram", nbytes=32, depth=4)
-reg("Cache(size=2,16/16)+envmem", "quick", kind="cache", mw=16, sw=16, adrs=(0, 2, 4), sels=(0b01, 0b11), cachesize=2, nbytes=16, depth=3, zero_env=True, marks=(1,))
-reg("Cache(size=2,16/16)+envmem,depth4,lat2", "thorough", kind="cache", mw=16, sw=16, adrs=(0, 2, 4), sels=(0b01, 0b11), cachesize=2, nbytes=16, depth=4, zero_env=True, maxlat=2)
+# cache: addresses 0, 2, 4 collide in a 2-line cache (16/16: line = 1 word), 1 is the other line.  With one data mark per lane the
+# product closes (every byte is 0 or its mark), so these runs have no operation-depth bound; the two-mark runs keep a bound (and the
+# read-back epilogue) and are thorough-only
+reg("Cache(size=2,16/16)+SRAM", "quick", kind="cache", mw=16, sw=16, adrs=(0, 2, 4, 1), sels=(0b01, 0b11, 0b10), cachesize=2, backing="sram", nbytes=16, marks=(1,))
+reg("Cache(size=2,16/16,reverse=False)+SRAM", "quick", kind="cache", mw=16, sw=16, adrs=(0, 2, 4), sels=(0b01, 0b11), cachesize=2, backing="sram", nbytes=16, reverse=False, marks=(1,))
+reg("Cache(size=4,16/32)+SRAM", "quick", kind="cache", mw=16, sw=32, adrs=(0, 1, 8, 9), sels=(0b01, 0b11, 0b10), cachesize=4, backing="sram", nbytes=32, marks=(1,))
+reg("Cache(size=4,16/32,reverse=False)+SRAM", "quick", kind="cache", mw=16, sw=32, adrs=(0, 1, 8), sels=(0b01, 0b11), cachesize=4, backing="sram", nbytes=32, reverse=False, marks=(1,))
+reg("Cache(size=2,32/16)+SRAM", "quick", kind="cache", mw=32, sw=16, adrs=(0, 2, 4), sels=(0b0001, 0b1111, 0b0110), cachesize=2, backing="sram", nbytes=32, marks=(1,))
+reg("Cache(size=2,32/8)+SRAM", "quick", kind="cache", mw=32, sw=8, adrs=(0, 2), sels=(0b0001, 0b1111, 0b0110), cachesize=2, backing="sram", nbytes=16, marks=(1,))
+reg("Cache(size=2,16/16)+envmem", "quick", kind="cache", mw=16, sw=16, adrs=(0, 2, 4), sels=(0b01, 0b11), cachesize=2, nbytes=16, zero_env=True, marks=(1,))
+reg("Cache(size=2,16/16)+envmem,lat2", "thorough", kind="cache", mw=16, sw=16, adrs=(0, 2, 4), sels=(0b01, 0b11), cachesize=2, nbytes=16, zero_env=True, maxlat=2, marks=(1,))
+reg("Cache(size=2,16/16)+SRAM,2marks,depth5", "thorough", kind="cache", mw=16, sw=16, adrs=(0, 2, 4, 1), sels=(0b01, 0b11, 0b10), cachesize=2, backing="sram", nbytes=16, depth=5, cap=3_000_000)
+reg("Cache(size=2,16/16)+SRAM,2marks", "thorough", kind="cache", mw=16, sw=16, adrs=(0, 2, 4), sels=(0b01, 0b11), cachesize=2, backing="sram", nbytes=16, cap=3_000_000)
+reg("Cache(size=4,16/32)+SRAM,2marks,depth4", "thorough", kind="cache", mw=16, sw=32, adrs=(0, 1, 8, 9), sels=(0b01, 0b11, 0b10), cachesize=4, backing="sram", nbytes=32, depth=4)
+reg("Cache(size=2,32/16)+SRAM,2marks,depth4", "thorough", kind="cache", mw=32, sw=16, adrs=(0, 2, 4), sels=(0b0001, 0b1111, 0b0110), cachesize=2, backing="sram", nbytes=32, depth=4)
+reg("Cache(size=8,16/64)+SRAM", "thorough", kind="cache", mw=16, sw=64, adrs=(0, 3, 16, 19), sels=(0b01, 0b11), cachesize=8, backing="sram", nbytes=64, marks=(1,))
 reg("Cache(size=2,16/16)+SRAM+nonzero_backing", "quick", kind="cache", mw=16, sw=16, adrs=(0, 2), sels=(0b11,), cachesize=2, backing="sram", nbytes=16, depth=3, nonzero=True)
 
 
